@@ -141,6 +141,9 @@ pub fn udp_scenario(ch: &mut Chooser) -> Exec {
     let (mtu, lomtu) = *ch.of("mtu(external, loopback)", &[(100u32, 200u32), (200, 100), (1500, 65536), (90, 90)]);
     let bind_kind = ch.choose("bind(wildcard|loopback|external)", 3);
     let dst_kind = ch.choose("destination(loopback|other host)", 2);
+    // the call the datagram goes through: send_to, or connect() followed by send / try_send,
+    // or try_send_to
+    let api = ch.choose("api(send_to|connect+send|connect+try_send|try_send_to)", 4);
     let hdr: u32 = if v6 { 40 } else { 20 };
     let limit = |m: u32| m.saturating_sub(hdr).saturating_sub(8) as i64;
     let path_limit = if dst_kind == 0 { limit(lomtu) } else { limit(mtu) };
@@ -173,7 +176,16 @@ pub fn udp_scenario(ch: &mut Chooser) -> Exec {
                 }
             };
             let payload = vec![7u8; size];
-            let r = s.send_to(&payload, dst).await.map_err(|e| format!("{:?} os={:?}", e.kind(), e.raw_os_error()));
+            let fe = |e: std::io::Error| format!("{:?} os={:?}", e.kind(), e.raw_os_error());
+            let r = match api {
+                0 => s.send_to(&payload, dst).await.map_err(fe),
+                3 => s.try_send_to(&payload, dst).map_err(fe),
+                _ => match s.connect(dst).await {
+                    Err(e) => Err(format!("connect: {}", fe(e))),
+                    Ok(()) if api == 1 => s.send(&payload).await.map_err(fe),
+                    Ok(()) => s.try_send(&payload).map_err(fe),
+                },
+            };
             *res.borrow_mut() = Some(r);
             std::future::pending::<()>().await;
         });
@@ -191,7 +203,7 @@ pub fn udp_scenario(ch: &mut Chooser) -> Exec {
     let r = res.borrow().clone();
     let fits = size as i64 <= path_limit;
     let mut violation = None;
-    let obs = format!("v6={v6} mtu={mtu} lomtu={lomtu} bind={bind_kind} dst={dst} size={size} path_limit={path_limit} -> {r:?}, on the wire {sent_bytes:?}");
+    let obs = format!("v6={v6} mtu={mtu} lomtu={lomtu} bind={bind_kind} api={api} dst={dst} size={size} path_limit={path_limit} -> {r:?}, on the wire {sent_bytes:?}");
     // a socket bound to the loopback address talking to another host (or the reverse) may be
     // refused for addressing reasons; only the size rule is judged there
     let cross = (bind_kind == 1 && dst_kind == 1) || (bind_kind == 2 && dst_kind == 0);
@@ -205,9 +217,10 @@ pub fn udp_scenario(ch: &mut Chooser) -> Exec {
             violation = Some(Violation::new(
                 "udp-mtu",
                 format!(
-                    "a {size}-byte UDP payload to {dst} ({} path, MTU {}, at most {path_limit} payload bytes): send_to returned {:?} and {:?} payload bytes went onto the wire; expected {}",
+                    "a {size}-byte UDP payload to {dst} ({} path, MTU {}, at most {path_limit} payload bytes) through {}: the call returned {:?} and {:?} payload bytes went onto the wire; expected {}",
                     if dst_kind == 0 { "loopback" } else { "external" },
                     if dst_kind == 0 { lomtu } else { mtu },
+                    ["send_to", "connect + send", "connect + try_send", "try_send_to"][api],
                     r,
                     sent_bytes,
                     if fits { "Ok(size)" } else { "an error and nothing sent" }
